@@ -541,7 +541,7 @@ def _replay_gather(ob):
 
     from ujvc.z3env import REPO_SRC
 
-    p = subprocess.run(["/venv/bin/python", "-c", GATHER_REPLAY_SCRIPT], env=dict(os.environ, PYTHONPATH=REPO_SRC), capture_output=True, text=True, timeout=600)
+    p = __import__('ujvc.units', fromlist=['run_native_p']).run_native_p(["/venv/bin/python", "-c", GATHER_REPLAY_SCRIPT], env=dict(os.environ, PYTHONPATH=REPO_SRC), timeout=600)
     return {"reproduced": p.returncode == 1, "detail": (p.stdout + p.stderr)[-3000:], "script": GATHER_REPLAY_SCRIPT}
 
 
